@@ -32,6 +32,10 @@ def configs(tier):
     out.append({"kind": "simultaneous_methods"})
     # simultaneity declared on transactions only (no method of the design carries a simultaneous() relation), on a
     # transaction and a method, and on three bodies at once; optionally with an unrelated Connect elsewhere in the design
+    # one side of a Connect called from a transaction nested in a method that its caller calls conditionally
+    for side in ("writer", "reader"):
+        for how in ("if", "enable_call"):
+            out.append({"kind": "connect_nested", "nested_side": side, "guard": how})
     for kind in ("tt", "tm", "mmm", "ttt"):
         for extra in (False, True):
             out.append({"kind": "simultaneous_bodies", "shape": kind, "unrelated_connect": extra})
@@ -118,6 +122,79 @@ class SimDesign(Elaboratable):
         with self.T2.body(m, ready=self.t2r):
             self.M2(m)
         return m
+
+
+class NestedConnectDesign(Elaboratable):
+    """Connect(d:2, r:2).  The `nested_side` end is called by a transaction TN nested in the body of method `push`, which
+    transaction OUTER calls under a free guard (m.If or enable_call); the other end is called by an independent transaction
+    OTHER.  All readiness, guards and payloads are free inputs."""
+
+    def __init__(self, nested_side, guard):
+        self.nested_side, self.guard = nested_side, guard
+        self.ins, self.outs = [], []
+
+    def elaborate(self, platform):
+        m = TModule()
+        S = lambda name, w=1: Signal(w, name=name)
+        m.submodules.conn = self.conn = conn = Connect([("d", 2)], [("r", 2)])
+        self.g, self.outer_rdy, self.push_rdy, self.tn_rdy, self.other_rdy = S("guard"), S("outer_rdy"), S("push_rdy"), S("tn_rdy"), S("other_rdy")
+        self.x_n, self.x_o = S("x_nested", 2), S("x_other", 2)
+        self.got_n, self.got_o = S("got_nested", 2), S("got_other", 2)
+        self.ins += [self.g, self.outer_rdy, self.push_rdy, self.tn_rdy, self.other_rdy, self.x_n, self.x_o]
+        self.outs += [self.got_n, self.got_o]
+        self.push = Method(name="push")
+        self.TN, self.OUTER, self.OTHER = Transaction(name="TN"), Transaction(name="OUTER"), Transaction(name="OTHER")
+        w_side = self.nested_side == "writer"
+
+        def end(mine, arg, got):
+            ret = conn.write(m, d=arg) if mine else conn.read(m, r=arg)
+            m.d.top_comb += got.eq(ret.r if mine else ret.d)
+
+        @def_method(m, self.push, ready=self.push_rdy)
+        def _():
+            with self.TN.body(m, ready=self.tn_rdy):
+                end(w_side, self.x_n, self.got_n)
+
+        with self.OUTER.body(m, ready=self.outer_rdy):
+            if self.guard == "if":
+                with m.If(self.g):
+                    self.push(m)
+            else:
+                self.push(m, enable_call=self.g)
+        with self.OTHER.body(m, ready=self.other_rdy):
+            end(not w_side, self.x_o, self.got_o)
+        return m
+
+
+def run_nested(cfg, ctx):
+    from amaranth.hdl._ir import Fragment
+
+    dsg = NestedConnectDesign(cfg["nested_side"], cfg["guard"])
+    top = TransactronContextElaboratable(dsg)
+    rec = Recorder(())
+    with rec:
+        frag = Fragment.get(top, None)
+    conn = dsg.conn
+    hw = HW(frag, dsg.ins, dsg.outs + [conn.read.run, conn.write.run, dsg.push.run, dsg.TN.run, dsg.OUTER.run, dsg.OTHER.run])
+    hw.rec = rec
+    ctx.use(hw)
+    b = hw.b
+    rr, wr = b(conn.read.run), b(conn.write.run)
+    tn, outer, other, push = b(dsg.TN.run), b(dsg.OUTER.run), b(dsg.OTHER.run), b(dsg.push.run)
+    ctx.prove("read_and_write_run_in_the_same_cycles", rr == wr, hw=hw)
+    ctx.prove("nested_caller_and_other_caller_run_together", tn == other, hw=hw)
+    ctx.prove("nested_transaction_runs_only_with_its_enclosing_method", z3.Implies(tn, push), hw=hw)
+    ctx.prove("enclosing_method_runs_iff_called", push == z3.And(outer, b(dsg.g)), hw=hw)
+    # the pair runs iff both callers are fully enabled; the conditionally calling transaction is never blocked by the pair
+    full = z3.And(b(dsg.outer_rdy), b(dsg.g), b(dsg.push_rdy), b(dsg.tn_rdy), b(dsg.other_rdy))
+    ctx.prove("pair_runs_iff_both_callers_fully_enabled", rr == full, hw=hw)
+    n_is_writer = cfg["nested_side"] == "writer"
+    x_w, x_r = (dsg.x_n, dsg.x_o) if n_is_writer else (dsg.x_o, dsg.x_n)
+    got_w, got_r = (dsg.got_n, dsg.got_o) if n_is_writer else (dsg.got_o, dsg.got_n)
+    ctx.prove("reader_receives_written_data", z3.Implies(rr, hw.sig(got_r) == hw.sig(x_w)), hw=hw)
+    ctx.prove("writer_receives_reverse_data", z3.Implies(wr, hw.sig(got_w) == hw.sig(x_r)), hw=hw)
+    ctx.cover("transfer", z3.And(rr, wr), hw=hw)
+    ctx.cover("other_side_ready_but_guard_false", z3.And(b(dsg.other_rdy), b(dsg.outer_rdy), z3.Not(b(dsg.g))), hw=hw)
 
 
 class BodiesDesign(Elaboratable):
@@ -214,6 +291,8 @@ def run(cfg, ctx):
 
     if cfg["kind"] == "simultaneous_bodies":
         return run_bodies(cfg, ctx)
+    if cfg["kind"] == "connect_nested":
+        return run_nested(cfg, ctx)
 
     if cfg["kind"] == "connect":
         dsg = ConnectDesign(cfg)
